@@ -241,6 +241,59 @@ def debugHandler (c : Ctx) (m : TraitMeta) : Res (List Item) := do
 def showExpr (e : Option (String × Bool)) : String :=
   match e with | some (t, w) => (if w then "into:" else "expr:") ++ noSpace t | none => "none"
 
+/-- Several variants: exactly one carries `#[educe(Default)]`; the others may not carry Default attributes on fields. -/
+def defaultVariantLoop (fieldAttr : Bool → Bool → Field → Res (Field × DefaultFieldAttr)) (variantAttr : Bool → Variant → Res DefaultTypeAttr) :
+    Nat → List Variant → Option (Nat × Variant) → Res (Option (Nat × Variant))
+  | _, [], acc => .ok acc
+  | k, v :: rest, acc => do
+    let va ← variantAttr true v
+    if va.flag then
+      match acc with
+      | some _ => Res.diag .multipleDefaultVariants
+      | none => defaultVariantLoop fieldAttr variantAttr (k + 1) rest (some (k, v))
+    else do
+      let _ ← mapRes (fieldAttr false false) v.fields
+      defaultVariantLoop fieldAttr variantAttr (k + 1) rest acc
+
+def defaultFieldLoop (fieldAttr : Bool → Bool → Field → Res (Field × DefaultFieldAttr)) :
+    Nat → List Field → Option (Nat × Field × DefaultFieldAttr) → Res (Option (Nat × Field × DefaultFieldAttr))
+  | _, [], acc => .ok acc
+  | i, f :: rest, acc => do
+    let (_, a) ← fieldAttr true true f
+    if a.flag || a.expression.isSome then
+      match acc with
+      | some _ => Res.diag .multipleDefaultFields
+      | none => defaultFieldLoop fieldAttr (i + 1) rest (some (i, f, a))
+    else defaultFieldLoop fieldAttr (i + 1) rest acc
+
+/-- The default variant of an enum: a sole variant with or without marker, else the marked one;
+    its fields are then scanned for `Default` attributes. -/
+def defaultPickVariant (fieldAttr : Bool → Bool → Field → Res (Field × DefaultFieldAttr)) (variantAttr : Bool → Variant → Res DefaultTypeAttr)
+    (vs : List Variant) : Res (Nat × Variant × List (Field × DefaultFieldAttr)) :=
+  match vs with
+  | [v] => do
+    let _ ← variantAttr true v
+    let fas ← mapRes (fieldAttr false true) v.fields
+    pure (0, v, fas)
+  | vs =>
+    do match ← defaultVariantLoop fieldAttr variantAttr 0 vs none with
+       | none => Res.diag .noDefaultVariant
+       | some (k, v) =>
+         let fas ← mapRes (fieldAttr false true) v.fields
+         pure (k, v, fas)
+
+/-- The initialised field of a union: a sole field with or without marker, else the marked one. -/
+def defaultPickField (fieldAttr : Bool → Bool → Field → Res (Field × DefaultFieldAttr)) (fs : List Field) :
+    Res (Nat × Field × DefaultFieldAttr) :=
+  match fs with
+  | [f] => do
+    let (_, a) ← fieldAttr true true f
+    pure (0, f, a)
+  | _ =>
+    do match ← defaultFieldLoop fieldAttr 0 fs none with
+       | none => Res.diag .noDefaultField
+       | some r => pure r
+
 def defaultHandler (c : Ctx) (m : TraitMeta) : Res (List Item) := do
   let d := c.d
   let mine : TraitId → Bool := (· == .default)
@@ -270,51 +323,33 @@ def defaultHandler (c : Ctx) (m : TraitMeta) : Res (List Item) := do
       let fas ← mapRes (fieldAttr false true) v.fields
       finish ["struct"] fas (fas.filterMap fun (f, a) => if a.expression.isSome then none else some f.ty)
     | .enum =>
-      let pickAndFinish (k : Nat) (v : Variant) : Res (List Item) := do
-        let fas ← mapRes (fieldAttr false true) v.fields
-        finish ["variant", toString k] fas (fas.filterMap fun (f, a) => if a.expression.isSome then none else some f.ty)
-      match d.variants with
-      | [v] => do
-        let _ ← variantAttr true v
-        pickAndFinish 0 v
-      | vs =>
-        let rec loop : Nat → List Variant → Option (Nat × Variant) → Res (Option (Nat × Variant))
-          | _, [], acc => .ok acc
-          | k, v :: rest, acc => do
-            let va ← variantAttr true v
-            if va.flag then
-              match acc with
-              | some _ => Res.diag .multipleDefaultVariants
-              | none => loop (k + 1) rest (some (k, v))
-            else do
-              let _ ← mapRes (fieldAttr false false) v.fields
-              loop (k + 1) rest acc
-        match ← loop 0 vs none with
-        | none => .diag .noDefaultVariant
-        | some (k, v) => pickAndFinish k v
+      let (k, _, fas) ← defaultPickVariant fieldAttr variantAttr d.variants
+      finish ["variant", toString k] fas (fas.filterMap fun (f, a) => if a.expression.isSome then none else some f.ty)
     | .union =>
-      let fs := (d.variants.headD {}).fields
-      let one (i : Nat) (f : Field) (a : DefaultFieldAttr) : Res (List Item) :=
-        finish ["unionfield", toString i] [(f, a)] (if a.expression.isSome then [] else [f.ty])
-      match fs with
-      | [f] => do
-        let (_, a) ← fieldAttr true true f
-        one 0 f a
-      | _ =>
-        let rec floop : Nat → List Field → Option (Nat × Field × DefaultFieldAttr) → Res (Option (Nat × Field × DefaultFieldAttr))
-          | _, [], acc => .ok acc
-          | i, f :: rest, acc => do
-            let (_, a) ← fieldAttr true true f
-            if a.flag || a.expression.isSome then
-              match acc with
-              | some _ => Res.diag .multipleDefaultFields
-              | none => floop (i + 1) rest (some (i, f, a))
-            else floop (i + 1) rest acc
-        match ← floop 0 fs none with
-        | none => .diag .noDefaultField
-        | some (i, f, a) => one i f a
+      let (i, f, a) ← defaultPickField fieldAttr (d.variants.headD {}).fields
+      finish ["unionfield", toString i] [(f, a)] (if a.expression.isSome then [] else [f.ty])
 
 /-! ### Deref / DerefMut -/
+
+/-- The designated field among several: the only one carrying the marker. -/
+def derefLoop (fieldFlag : Field → Res Bool) : Nat → List Field → Option (Nat × Field) → Res (Option (Nat × Field))
+  | _, [], acc => .ok acc
+  | i, f :: rest, acc => do
+    let fl ← fieldFlag f
+    if fl then
+      match acc with
+      | some _ => Res.diag .multipleDerefFields
+      | none => derefLoop fieldFlag (i + 1) rest (some (i, f))
+    else derefLoop fieldFlag (i + 1) rest acc
+
+/-- A sole field is designated with or without marker (its attributes are still validated). -/
+def derefPick (fieldFlag : Field → Res Bool) (fs : List Field) : Res (Nat × Field) :=
+  match fs with
+  | [f] => do let _ ← fieldFlag f; pure (0, f)
+  | _ =>
+    do match ← derefLoop fieldFlag 0 fs none with
+       | none => Res.diag .noDerefField
+       | some r => pure r
 
 def derefHandler (c : Ctx) (m : TraitMeta) (me : TraitId) : Res (List Item) := do
   let d := c.d
@@ -325,33 +360,17 @@ def derefHandler (c : Ctx) (m : TraitMeta) (me : TraitId) : Res (List Item) := d
     let _ ← flagTypeFromMeta true m
     let fieldFlag (f : Field) : Res Bool :=
       fromAttrs c.F c.traits mine (flagTypeFromMeta true) false f.attrs
-    let pick (fs : List Field) (v : Variant) : Res (Nat × Field) :=
-      match fs with
-      | [f] => do let _ ← fieldFlag f; pure (0, f)
-      | _ =>
-        let rec loop : Nat → List Field → Option (Nat × Field) → Res (Option (Nat × Field))
-          | _, [], acc => .ok acc
-          | i, f :: rest, acc => do
-            let fl ← fieldFlag f
-            if fl then
-              match acc with
-              | some _ => Res.diag .multipleDerefFields
-              | none => loop (i + 1) rest (some (i, f))
-            else loop (i + 1) rest acc
-        do match ← loop 0 fs none with
-           | none => let _ := v; Res.diag .noDerefField
-           | some r => pure r
     match d.kind with
     | .struct =>
       let v := d.variants.headD {}
-      let (i, f) ← pick v.fields v
+      let (i, f) ← derefPick fieldFlag v.fields
       pure [{ trait := me.name, preds := [], head := [toString i, noSpace f.derefTy, showBool f.isRef] }]
     | _ =>
       let vs ← mapRes (fun v => do
           let _ ← fromAttrs c.F c.traits mine (flagTypeFromMeta false) false v.attrs
           if v.shape == .unit then Res.diag .unitVariant
           else do
-            let (i, f) ← pick v.fields v
+            let (i, f) ← derefPick fieldFlag v.fields
             pure (v, i, f)) d.variants
       match vs with
       | [] => .diag .noDerefField
